@@ -48,21 +48,24 @@ def catalogue(tier: str):
     C.append(spec(
         'r1-init-f2-ra0', 2, {'R1': 's', 'P1': 's[^] => b'},
         [absout('s', 1, {'b': pts(2)})], scheduling=RA0))
-    C.append(spec(
-        'r1-init-f3', 3, {'R1': 's', 'P1': 's[^] => b'},
-        [absout('s', 1, {'b': pts(3)})], scheduling=RA1))
     # dependents that also have an ordinary parent: spawned on demand
     C.append(spec(
-        'r1-and-f2', 2, {'R1': 's', 'P1': 's[^] & a => b'},
+        'r1-and-seq-f2', 2, {'R1': 's => a', 'P1': 's[^] & a => b'},
         [absout('s', 1, {'b': pts(2)})], scheduling=RA0))
     # cycling parent, initial-point-relative and absolute offsets
     C.append(spec(
-        'foo-init-f2', 2, {'P1': 'foo[^] => bar\nfoo'},
-        [absout('foo', 1, {'bar': pts(2)})], scheduling=RA0))
-    C.append(spec(
-        'foo-2-f2', 2, {'P1': 'foo[2] => bar\nfoo'},
+        'foo-2-seq-f2', 2, {'P1': 'foo[2] => bar\nfoo[-P1] => foo'},
         [absout('foo', 2, {'bar': pts(2)})]))
     if tier == 'thorough':
+        C.append(spec(
+            'foo-init-f2', 2, {'P1': 'foo[^] => bar\nfoo'},
+            [absout('foo', 1, {'bar': pts(2)})], scheduling=RA0))
+        C.append(spec(
+            'r1-and-f2', 2, {'R1': 's', 'P1': 's[^] & a => b'},
+            [absout('s', 1, {'b': pts(2)})], scheduling=RA0))
+        C.append(spec(
+            'r1-init-f3', 3, {'R1': 's', 'P1': 's[^] => b'},
+            [absout('s', 1, {'b': pts(3)})], scheduling=RA1))
         C.append(spec(
             'r1-init-f3-ra0', 3, {'R1': 's', 'P1': 's[^] => b'},
             [absout('s', 1, {'b': pts(3)})], scheduling=RA0))
@@ -80,9 +83,6 @@ def catalogue(tier: str):
         C.append(spec(
             'foo-init-f3', 3, {'P1': 'foo[^] => bar\nfoo'},
             [absout('foo', 1, {'bar': pts(3)})], scheduling=RA0))
-        C.append(spec(
-            'foo-2-f3', 3, {'P1': 'foo[2] => bar\nfoo'},
-            [absout('foo', 2, {'bar': pts(3)})]))
         C.append(spec(
             'foo-2-p2-f3', 3, {'P1': 'foo', '+P1/P1': 'foo[2] => bar'},
             [absout('foo', 2, {'bar': pts(3, 2)})], scheduling=RA0))
@@ -110,7 +110,7 @@ def run(ctx: Ctx) -> Result:
     specs = catalogue(ctx.tier)
     st = explore_all(
         ctx, [make_factory(s) for s in specs],
-        max_states=ctx.pick(6000, 60000), max_seconds=ctx.pick(110, 1500))
+        max_states=ctx.pick(6000, 60000), max_seconds=ctx.pick(115, 2400))
     if not st.error and not st.violations:
         for flag in NEED:
             if not any((k + '+').count(flag + '+') for k in st.terminals):
